@@ -70,6 +70,7 @@ DEFAULT_KNOBS = dict(
     p_awaitable=0.0,
     p_prop_guard=0.0,
     p_guard_any_value=0.0,
+    p_plain_sender=0.0,
 )
 
 
@@ -600,11 +601,18 @@ def gen_scenario(rnd, k, profile="generic"):
         ensure_machine_param(prog, c)
     set_async(rnd, prog, mode, must_async=senders)
     is_async = any(m.get("async") for m in prog["cbs"].values())
+    if is_async and senders and rnd.random() < k["p_plain_sender"]:
+        # a PLAIN function of an async machine sends an event: it cannot await the coroutine it gets
+        # back, but the event is queued by the call itself and runs after the current one
+        c = rnd.choice(senders)
+        if any(m.get("async") for c2, m in prog["cbs"].items() if c2 != c):
+            prog["cbs"][c].pop("async", None)
+            prog["cbs"][c]["plain_sender"] = True
     if is_async and k["p_awaitable"] > 0:
         for c in sorted(prog["cbs"]):
             m = prog["cbs"][c]
             if not m.get("async") and m["group"] not in ("cond", "unless") and not m.get("style") \
-                    and rnd.random() < k["p_awaitable"]:
+                    and not m.get("plain_sender") and rnd.random() < k["p_awaitable"]:
                 m["awaitable"] = True
     ops = gen_ops(rnd, prog, k)
     if is_async:
